@@ -34,6 +34,10 @@ namespace OP2Utility::Stream
 		file.read(static_cast<char*>(buffer), size);
 		// Check stream flags for errors
 		if (!file) {
+			// Restore the stream to a usable state positioned where the failed read began
+			auto bytesRead = file.gcount();
+			file.clear();
+			file.seekg(-bytesRead, std::ios_base::cur);
 			throw std::runtime_error("Error reading from file");
 		}
 	}
@@ -41,7 +45,12 @@ namespace OP2Utility::Stream
 	std::size_t FileReader::ReadPartial(void* buffer, std::size_t size) noexcept {
 		file.read(static_cast<char*>(buffer), size);
 		// Note: number of unformatted bytes read, up to size, must fit within a size_t
-		return static_cast<std::size_t>(file.gcount());
+		auto bytesRead = static_cast<std::size_t>(file.gcount());
+		if (!file) {
+			// A short read at end of file sets eofbit and failbit. Clear them so the stream remains usable.
+			file.clear();
+		}
+		return bytesRead;
 	}
 
 	uint64_t FileReader::Length() {
